@@ -81,8 +81,11 @@ func scenC04(w *vsim.World, spec *vsim.Spec) {
 	}
 	sent := map[string][]tentry{}
 	untrashStarted := map[string]int{}
-	deleteStarted := map[string]int{}         // DELETE requests ever started, per hash
-	prevStepAt := map[string]time.Time{}      // task -> time of its previous filesystem step
+	deleteStarted := map[string]int{}        // DELETE requests ever started, per hash
+	prevStepAt := map[string]time.Time{}     // task -> time of its previous filesystem step
+	prevStepBefore := map[string]time.Time{} // task -> time of the step before the current one
+	type appliedStamp struct{ at, ts time.Time }
+	applied := map[string][]appliedStamp{}    // hash -> timestamps that requests gave the block (rename into place, utimes) and when
 	lastChtimesAt := map[string]time.Time{}   // task -> time of its latest utimes step
 	longWaitForFlock := map[string]bool{}     // task -> it got a flock a whole TTL after its previous step (the open)
 	stalledRenameAt := map[string]time.Time{} // hash -> when a writer that had been in flight for >= TTL renamed its temp file into place
@@ -231,8 +234,14 @@ func scenC04(w *vsim.World, spec *vsim.Spec) {
 					found = true
 				}
 			}
-			if !found && stalledWriter[g.hash] && stalledRenameAt[g.hash].After(g.start) {
-				w.ViolationSig("c04/fresh-block-gone", "writer-stalled-a-whole-ttl-replaces-fresher-copy-with-its-old-timestamp", "block %s was PUT/TOUCHed (acknowledged; operation started %s ago), then a PUT or TOUCH of the same block that had been in flight for longer than the TTL (stalled between reading the clock and its rename/utimes) gave the block its own, TTL-old timestamp, and a trash request removed it; TTL is %s (last step: %+v)", g.hash[:8], now.Sub(g.start), ttl, last)
+			olderApplied := false // a request gave the block a timestamp OLDER than this guard's reference, AFTER that reference
+			for _, e := range applied[g.hash] {
+				if !e.at.Before(g.start) && e.ts.Before(g.start) {
+					olderApplied = true
+				}
+			}
+			if !found && (olderApplied || stalledWriter[g.hash] && stalledRenameAt[g.hash].After(g.start)) {
+				w.ViolationSig("c04/fresh-block-gone", "writer-stalled-a-whole-ttl-replaces-fresher-copy-with-its-old-timestamp", "block %s was PUT/TOUCHed (acknowledged; operation started %s ago), then another PUT, TOUCH or untrash of the same block applied a timestamp it had read BEFORE that (it was delayed between reading the clock and its rename/utimes), so the block's stored timestamp went backwards and a trash request removed it early; TTL is %s (last step: %+v)", g.hash[:8], now.Sub(g.start), ttl, last)
 				return
 			}
 			if !found {
@@ -286,6 +295,9 @@ func scenC04(w *vsim.World, spec *vsim.Spec) {
 		if t, ok := prevStepAt[s.Task]; ok {
 			gapBefore = time.Since(t)
 		}
+		if t, ok := prevStepAt[s.Task]; ok {
+			prevStepBefore[s.Task] = t
+		}
 		prevStepAt[s.Task] = time.Now()
 		if s.Op == "flock" && gapBefore >= ttl-smallJumps {
 			longWaitForFlock[s.Task] = true
@@ -307,10 +319,19 @@ func scenC04(w *vsim.World, spec *vsim.Spec) {
 				if age := time.Since(fi.ModTime()); age > sinceStamp && (!fromTmp || !fi.ModTime().Before(lastCopyWrite[root])) {
 					sinceStamp = age
 				}
+				if strings.Contains(root, ">") && (!fromTmp || !fi.ModTime().Before(lastCopyWrite[root])) {
+					applied[b2] = append(applied[b2], appliedStamp{at: time.Now(), ts: fi.ModTime()})
+				}
 			}
 		}
 		if s.Op == "chtimes" {
 			lastChtimesAt[s.Task] = time.Now()
+			if b := filepath.Base(s.Path); len(b) == 32 && isHex32(b) && strings.Contains(root, ">") {
+				// Touch: the clock was read after the previous step of this task (the flock) at the earliest
+				if t, ok := prevStepBefore[s.Task]; ok {
+					applied[b] = append(applied[b], appliedStamp{at: time.Now(), ts: t})
+				}
+			}
 		}
 		if (s.Op == "rename" || s.Op == "chtimes") && strings.Contains(root, ">") && (gapBefore >= ttl-smallJumps || sinceStamp >= ttl-smallJumps) {
 			for _, pth := range []string{s.Path, s.Path2} {
